@@ -898,7 +898,7 @@ def parse_google(
         lines = sections[0].value.lstrip().split("\n")
         if ":" in lines[0]:
             annotation, line = lines[0].split(":", 1)
-            lines = [line, *lines[1:]]
+            lines = [line.lstrip(), *lines[1:]]
             sections[0].value = "\n".join(lines)
             sections.append(
                 DocstringSectionReturns(
